@@ -629,6 +629,24 @@ def _dataclass_fields(c) -> Set[str]:
     return {st.target.id for st in c.node.body if isinstance(st, ast.AnnAssign) and isinstance(st.target, ast.Name)}
 
 
+def _writes_stdout(call, fn) -> bool:
+    """A print goes to stdout unless its file= argument is provably something else: sys.stderr, or a local that is only
+    ever bound to a fresh in-memory buffer (io.StringIO())."""
+    from ..fold import local_env
+    f = next((k.value for k in call.keywords if k.arg == "file"), None)
+    if f is None or (isinstance(f, ast.Constant) and f.value is None):
+        return True
+    if text(f) == "sys.stderr":
+        return False
+    if isinstance(f, ast.Name):
+        e = local_env(fn).get(f.id)
+        if e is not None and isinstance(e, ast.Call) and text(e.func) in ("io.StringIO", "StringIO") and not e.args:
+            return False
+        if e is not None and text(e) == "sys.stderr":
+            return False
+    return True
+
+
 def rule_prints(run, prog):
     run.rule("R-8.6", "stdout discipline: every print outside __main__ is unreachable when the debug level is 0 (CFG "
              "reachability with the outcomes of pure debug-level tests fixed at debug == 0)", floor=8)
@@ -636,14 +654,17 @@ def rule_prints(run, prog):
     for fn in prog.fns:
         if fn.mod.rel == "__main__.py":
             continue
-        prints = [n for n in walk_fn(fn.node) if isinstance(n, ast.Call) and text(n.func) in ("print", "sys.stdout.write", "pprint")]
+        prints = [n for n in walk_fn(fn.node) if isinstance(n, ast.Call) and text(n.func) in ("print", "sys.stdout.write", "pprint")
+                  and _writes_stdout(n, fn)]
         if not prints:
             continue
         g = cfg_of(fn)
+        from .c16 import _value_when_debug, debug_aliases
+        aliases = debug_aliases(fn)
         blocked = {}
         for node in g.nodes:
             if node.kind == "test":
-                v = _value_when_debug_zero(node.ast)
+                v = _value_when_debug(node.ast, 0, aliases)
                 if v is not None:
                     blocked[node.id] = "F" if v else "T"
 
